@@ -198,6 +198,14 @@ AnyQueryObj           == \E o \in Objs, q \in QM : QueryObj(o, q)
 AnySetAdj             == \E o \in Objs, a \in SetAdjs : SetAdj(o, a)
 AnyCopy               == \E o \in Objs : Copy(o)
 AnyCopyWith           == \E o \in Objs, a \in SetAdjs : CopyWith(o, a)
+\* the registry alone (thorough2: all conventions, the rich menu, without the caller's own actions)
+NextReg == \/ \E k \in Keys, P \in Params : Register(k, P)
+           \/ \E k \in Keys, P \in ConParams, a \in ConAdjs : Construct(k, P, a)
+           \/ AnyRegisterObject
+           \/ AnyRegisterObjectWith
+           \/ \E k \in Keys : Fetch(k)
+           \/ \E k \in Keys, q \in QM : Query(k, q)
+           \/ AnyQueryObj
 Next == \/ \E k \in Keys, P \in Params : Register(k, P)
         \/ \E k \in Keys, P \in ConParams, a \in ConAdjs : Construct(k, P, a)
         \/ AnyRegisterObject
